@@ -135,7 +135,7 @@ def gen_app(t, depth=0):
         return {"t": "hosts", "hosts": [(t.choice(HOSTS), gen_app(t, depth + 1)) for _ in range(n)]}
     if k == "mw":
         # "reflect": the middleware looks at the request AFTER the inner application ran (path parameters and mount prefix as routing left them)
-        return {"t": "mw", "edit": t.choice([None, None, ("x-edited", "1"), "reflect", "reflect"]), "inner": gen_app(t, depth + 1)}
+        return {"t": "mw", "edit": t.choice([None, None, ("x-edited", "1"), "reflect", "reflect", "digest"]), "inner": gen_app(t, depth + 1)}
     if k == "dec":
         return {"t": "dec", "inner": t.choice([{"t": "dump", "order": t.choice(["bjf", "fbj"])}, {"t": "resp", "recipe": recipes.gen_recipe(t, kinds=["response", "text", "json", "redirect"])}])}
     return {"t": k, "dir": t.choice(["site", "site/sub"]), "cacheability": t.choice(["public", "no-cache"]), "max_age": t.choice([600, 0])}
@@ -159,6 +159,15 @@ def has_sse(tree):
         if key in tree and any(has_sse(sub) for _, sub in tree[key]):
             return True
     return "inner" in tree and has_sse(tree["inner"])
+
+
+def has_file_recipe(tree):
+    if tree["t"] == "resp" and tree["recipe"]["kind"] == "file":
+        return True
+    for key in ("routes", "mounts", "hosts"):
+        if key in tree and any(has_file_recipe(sub) for _, sub in tree[key]):
+            return True
+    return "inner" in tree and has_file_recipe(tree["inner"])
 
 
 class _Sink:
@@ -204,6 +213,8 @@ class C04(Prop):
             if t.draw(2):
                 r2["path"], r2["root_path"] = plan["req"]["path"], plan["req"]["root_path"]
             plan["req2"] = r2
+        # fault: a served file is removed between the directory application's stat() and the response's open()
+        plan["vanish"] = (uses(plan["app"], "files") or uses(plan["app"], "pages") or has_file_recipe(plan["app"])) and t.draw(8) == 0
         return plan
 
     def describe(self, plan, variant=None):
@@ -279,7 +290,10 @@ class C04(Prop):
                 @M.middleware
                 def m(request, next_call):
                     resp = next_call(request)
-                    if edit == "reflect":
+                    if edit == "digest":
+                        # reads the body it relays (for a size / digest header) and hands the same response on
+                        resp.headers["x-size"] = str(len(b"".join(resp.iterable).replace(b": ping\n\n", b"")))      # (keep-alive comments depend on timing)
+                    elif edit == "reflect":
                         resp.headers["x-seen"] = ("%r %r %s" % (sorted((k, str(v)) for k, v in request.path_params.items()), request.get("SCRIPT_NAME", "").encode("latin-1").decode("utf-8", "replace"), request.url.path)).encode("ascii", "backslashreplace").decode("ascii")
                     elif edit:
                         resp.headers[edit[0]] = edit[1]
@@ -288,7 +302,12 @@ class C04(Prop):
                 @M.middleware
                 async def m(request, next_call):
                     resp = await next_call(request)
-                    if edit == "reflect":
+                    if edit == "digest":
+                        cs = []
+                        async for c in resp.iterable:
+                            cs.append(c)
+                        resp.headers["x-size"] = str(len(b"".join(cs).replace(b": ping\n\n", b"")))
+                    elif edit == "reflect":
                         resp.headers["x-seen"] = ("%r %r %s" % (sorted((k, str(v)) for k, v in request.path_params.items()), request.get("root_path", ""), request.url.path)).encode("ascii", "backslashreplace").decode("ascii")
                     elif edit:
                         resp.headers[edit[0]] = edit[1]
@@ -391,8 +410,16 @@ class C04(Prop):
 
     def _compare(self, plan, ctx, boom, rq, cache, tag):
         app = plan["app"]
-        w, wviews = self._wsgi(plan, ctx, boom, rq, cache)
-        a, aviews = self._asgi(plan, ctx, boom, rq, cache)
+        fs = self.fs
+        sides = []
+        for side in (self._wsgi, self._asgi):
+            if plan.get("vanish"):
+                fs.fault_plan, fs.fault_flavour, fs.calls, fs.ctx = {"os_open": 1, "file_open": 1}, "enoent", {}, ctx
+            try:
+                sides.append(side(plan, ctx, boom, rq, cache))
+            finally:
+                fs.fault_plan, fs.fault_flavour, fs.calls, fs.ctx = {}, "eio", {}, None
+        (w, wviews), (a, aviews) = sides
         ctx.sch("wsgi", w[:3], len(w[3]) if len(w) > 3 and isinstance(w[3], bytes) else None, wviews)
         ctx.sch("asgi", a[:3], len(a[3]) if len(a) > 3 and isinstance(a[3], bytes) else None, aviews)
         if w[0] == "hang" or a[0] == "hang":
